@@ -218,7 +218,7 @@ class Engine:
         t = v.t
         if t == BOOL: return v.z
         if t == INT: return v.z != 0
-        if t == STR or t == BYTES: return z3.Length(v.z) > 0
+        if t == STR or t == BYTES: return z3.Length(self.deref(st, v)) > 0      # (a bytearray is a BYTES value in a heap cell)
         if t == NONE: return z3.BoolVal(False)
         if isinstance(t, OptT):
             inner = self.truth(st, V(t.base, opt_val(t, v.z))) if not is_mutable(t.base) else \
